@@ -296,6 +296,10 @@ val is_bulk : opk -> bool
 
 val is_local : opk -> bool
 
+val is_steal : opk -> bool
+
+val is_own : opk -> bool
+
 val call_ok : nat -> opk -> bool
 
 val entry : opk -> pcT
